@@ -63,6 +63,7 @@ struct StateProp : Prop {
 		int maxt = 1;
 		struct N { std::vector<uint8_t> addr; bool present; bool iface; };
 		std::vector<N> ns; for (auto &b : w.boards) ns.push_back({b.addr, b.present, b.is_iface()});
+		bool any_dense = false;
 		cfg::World wcur = w;      // where the boards are now (feedback after a re-login comes from the new address)
 		int relogin_next = -1;
 		for (int i = 0; i < nsteps; i++) {
@@ -116,7 +117,7 @@ struct StateProp : Prop {
 				auto sg = sgs[r.below(sgs.size())];
 				const cfg::Train &tr = w.trains[r.below(w.trains.size())];
 				J ev = J::arr(); int t = 0;
-				bool dense = r.coin();     // dense: one report per 5 ms grid instant for 50-200 ms, readers work in batches at every instant
+				bool dense = r.coin(); if (dense) any_dense = true;     // dense: one report per 5 ms grid instant for 50-200 ms, readers work in batches at every instant
 				for (int k = 0, n = dense ? (int) r.range(10, 40) : (int) r.range(4, 14); k < n; k++) {
 					J e = J::obj(); e.set("at_us", t); e.set("node", pc::jaddr(sg.first->addr)); e.set("type", (int) MSG_BM_ADDRESS);
 					J d = J::arr(); d.push((int) sg.second->addr);
@@ -193,6 +194,8 @@ struct StateProp : Prop {
 		se.set("phases", phs);
 		J ss = J::arr(); ss.push(se); plan.set("sessions", ss);
 		J sc = sched_json(r, tier, maxt, true); cfg::starve_after_startup(sc, r);
+		// (dense storms are about what happens INSIDE a getter while the receiver rewrites a list: preemption at call boundaries in every such run)
+		if (any_dense && sc.geti("fn_yield") < 40) sc.set("fn_yield", (int) r.range(40, 200));
 		plan.set("sched", sc);
 		return plan;
 	}
